@@ -5,6 +5,6 @@ from checks.uper_common import ASSUMPTIONS, TRUSTED
 
 class Spec(runner.Spec):
     prop = "C03"
-    streams = [uper_streams.Shapes()]
+    streams = [uper_streams.Shapes(), uper_streams.DescConsistency()]
     assumptions = ASSUMPTIONS
     trusted_base = TRUSTED
